@@ -12,6 +12,8 @@ import (
 
 	"pgregory.net/rapid"
 
+	"github.com/cossacklabs/acra/encryptor/base/config"
+
 	"verif/internal/fix"
 	"verif/internal/gen"
 	"verif/internal/hx"
@@ -31,6 +33,9 @@ type SessCase struct {
 	ReadExt   bool  `json:"read_ext,omitempty"`
 	ResultFmt int16 `json:"result_fmt,omitempty"`
 	Star      bool  `json:"star,omitempty"`
+	// SideSpell[i]: how the configuration file spells plaintext_side of column i (absent = as documented). A file
+	// the loader refuses because of such a spelling is replaced by the documented spelling (see spelledYAML)
+	SideSpell []Spell `json:"side_spell,omitempty"`
 }
 
 var sessPatterns = []string{"*", "xxxx", "MASK", "x y", "%%%", "%", `"`, `""""""""`, `%%%"""`, "0123456789012345678901234567890123456789", "маска"}
@@ -101,7 +106,47 @@ func genSessCase(t *rapid.T) SessCase {
 		c.ResultFmt = int16(rapid.IntRange(0, 1).Draw(t, "r.rfmt"))
 	}
 	c.Star = rapid.Bool().Draw(t, "r.star")
+	c.SideSpell = genSideSpells(t, len(c.Cols))
 	return c
+}
+
+// genSideSpells: one case in three spells the side of some masked column the hand-written way.
+func genSideSpells(t *rapid.T, ncols int) []Spell {
+	if rapid.IntRange(0, 2).Draw(t, "sidespell") != 0 {
+		return nil
+	}
+	sp := make([]Spell, ncols)
+	for i := range sp {
+		sp[i] = genSpell(t, fmt.Sprintf("sidespell%d", i), 1, 3)
+	}
+	return sp
+}
+
+// spelledYAML gives the configuration file of a session case: render(sides) is the file with the given
+// plaintext_side scalars (sides[i] for column i, as written in the file). With hand-written spellings (spells) the
+// real loader decides: a file it accepts is the configuration of the case - the columns must behave as the
+// spellings MEAN, which is what the case's columns say -, a file it refuses (a correct outcome) is replaced by the
+// documented spelling so that the rest of the case is not lost.
+func spelledYAML(cl func(string), spells []Spell, meant []string, mysql bool, render func(sides []string) string) string {
+	documented := render(meant)
+	hand := false
+	sides := append([]string(nil), meant...)
+	for i := range sides {
+		if i < len(spells) && sides[i] != "" {
+			sides[i] = spells[i].YAML(meant[i])
+			hand = hand || !spells[i].Documented()
+		}
+	}
+	if !hand {
+		return documented
+	}
+	y := render(sides)
+	if _, err := config.MapTableSchemaStoreFromConfig([]byte(y), mysql); err != nil {
+		cl("config:hand-written-side/refused")
+		return documented
+	}
+	cl("config:hand-written-side/accepted")
+	return y
 }
 
 func genWinL(t *rapid.T, label string) Win {
@@ -191,7 +236,17 @@ func CheckSession(c SessCase) (vs hx.Vs, nontrivial bool, classes []string) {
 		cols[i].MaskLen = c.Wins[i].resolve(L)
 	}
 	tables := []pgprog.TableSpec{{Name: "masked", Configured: true, Cols: append([]pgprog.ColSpec{{Name: "id", Kind: pgprog.KPlainInt}}, cols...)}}
-	yaml := pgprog.SchemaYAML(tables)
+	meant := make([]string, len(cols))
+	for i := range cols {
+		meant[i] = cols[i].MaskSide
+	}
+	yaml := spelledYAML(func(k string) { classes = append(classes, k) }, c.SideSpell, meant, false, func(sides []string) string {
+		written := append([]pgprog.ColSpec(nil), cols...)
+		for i := range written {
+			written[i].MaskSide = sides[i]
+		}
+		return pgprog.SchemaYAML([]pgprog.TableSpec{{Name: "masked", Configured: true, Cols: append([]pgprog.ColSpec{{Name: "id", Kind: pgprog.KPlainInt}}, written...)}})
+	})
 	defs := pgprog.Defs(tables)
 
 	// write, one INSERT per row, by the owner
@@ -437,7 +492,7 @@ func readerClass(reader string) string {
 }
 
 func TestMaskSessions(t *testing.T) {
-	R.Rule("TestMaskSessions", "one table with 1-3 masked columns drawn from the configurations the loader accepts (envelope, untyped / data_type str / bytes incl. by type id, failure policy, explicit client) with generated pattern, side and window (relative to the value of row 0); 1-3 rows of generated values (text-safe parts for str columns) inserted by alice through acra's real PostgreSQL proxy (simple or extended protocol, text/binary parameters, literal spellings, casts, inline literals); then alice, bobby and carol each select everything in a session of their own over the same fake database (simple/extended, text/binary results, star/list). Oracle: stored form as in TestMaskComponent; owner reads the original under the declared type; the others read exactly window||pattern; byte search for hidden-part slices, markers (all usual encodings, whole received stream) and ciphertext slices. Non-trivial = some cell with 0 < window < len (every case is read by two readers that are not the owner)")
+	R.Rule("TestMaskSessions", "one table with 1-3 masked columns drawn from the configurations the loader accepts (envelope, untyped / data_type str / bytes incl. by type id, failure policy, explicit client) with generated pattern, side and window (relative to the value of row 0); 1-3 rows of generated values (text-safe parts for str columns) inserted by alice through acra's real PostgreSQL proxy (simple or extended protocol, text/binary parameters, literal spellings, casts, inline literals); then alice, bobby and carol each select everything in a session of their own over the same fake database (simple/extended, text/binary results, star/list). In one case of three the configuration file spells plaintext_side of the columns the hand-written way (Capitalised / UPPER / alternating case, quoted, blanks inside the quotes): a file the real loader accepts is the configuration of all sessions of the case and the columns are judged by the side the spelling MEANS, a file it refuses (a correct outcome) is replaced by the documented spelling. Oracle: stored form as in TestMaskComponent; owner reads the original under the declared type; the others read exactly window||pattern; byte search for hidden-part slices, markers (all usual encodings, whole received stream) and ciphertext slices. Non-trivial = some cell with 0 < window < len (every case is read by two readers that are not the owner)")
 	hx.Checks(75, 1500)
 	rapid.Check(t, func(rt *rapid.T) {
 		c := genSessCase(rt)
